@@ -3,8 +3,7 @@
    supertypes), its preservation by every edit, and what follows for attribute
    visibility and isinstance on instances. *)
 From Coq Require Import String Ascii ZArith Bool List Lia Permutation.
-From PyecoreV Require Import Lib.PyBase Lib.PyList Model.C3 Model.Operations Model.MetaEdit
-  Proofs.PyListFacts Proofs.C3Proofs Proofs.OperationsProofs.
+From PyecoreV Require Import Lib.PyBase Lib.PyList Model.C3 Model.Operations Model.MetaEdit Proofs.PyListFacts Proofs.C3Proofs Proofs.OperationsProofs.
 Import ListNotations.
 Open Scope Z_scope.
 
